@@ -236,7 +236,21 @@ int phdr_cb(struct dl_phdr_info *info, size_t, void *arg) {
     return 0;
 }
 size_t g_last_retained_blocks = 0;
+// thread-local storage of the other threads that execute library code on the harness' behalf (engine A's helper threads): registered by each such
+// thread when it starts, scanned like the calling thread's own
+struct TlsRange { uintptr_t lo, hi; };
+TlsRange g_other_tls[64]; int g_other_tls_n = 0;
+int note_tls_cb(struct dl_phdr_info *info, size_t, void *) {
+    for (int i = 0; i < info->dlpi_phnum; i++) {
+        const ElfW(Phdr) &ph = info->dlpi_phdr[i];
+        if (ph.p_type == PT_TLS && info->dlpi_tls_data && g_other_tls_n < 64) g_other_tls[g_other_tls_n++] = TlsRange{(uintptr_t)info->dlpi_tls_data, (uintptr_t)info->dlpi_tls_data + ph.p_memsz};
+    }
+    return 0;
 }
+}
+void heap_note_thread_roots() { Lock l; dl_iterate_phdr(note_tls_cb, nullptr); }
+void heap_forget_thread_roots() { g_other_tls_n = 0; }
+namespace {}
 
 size_t heap_end_run() {
     State *s = S();
@@ -258,6 +272,7 @@ size_t heap_end_run() {
         std::vector<size_t, MallocAlloc<size_t>> work;
         ScanCtx c{&spans, &work};
         dl_iterate_phdr(phdr_cb, &c);
+        for (int k = 0; k < g_other_tls_n; k++) scan_words(c, g_other_tls[k].lo, g_other_tls[k].hi);
         while (!work.empty()) { size_t k = work.back(); work.pop_back(); scan_words(c, spans[k].lo, spans[k].hi); }
         size_t retained = 0;
         for (const Span &sp : spans) if (sp.sut_this_epoch && sp.marked) ++retained;
